@@ -19,6 +19,10 @@ def spec(tier):
                   sym=dict(s=I(0, 5), s2=I(0, 8), ram=I(1, 45)), fixed=dict(n=3, d0=1, d1=2, d2=1, dB=3, rB=7, K=K), timeout=600))
     obs.append(CH(name="bystander", harness="c10.suspend_protocol",
                   sym=dict(s=I(0, 4), dB=I(1, 6), rB=I(1, 60), ram=I(15, 45)), fixed=dict(n=2, d0=2, d1=2, d2=1, s2=-1, K=K), timeout=600))
+    # two concurrent write-outs (same or different request ticks, same or different end ticks)
+    obs.append(CH(name="two_suspensions", harness="c10.two_suspensions",
+                  sym=dict(ramA=I(1, 70), ramB=I(1, 70), cpuA=I(1, 3), cpuB=I(1, 3), dA=I(1, 2), dB=I(1, 2)), fixed=dict(K=8), timeout=900))
+    obs.append(twin("two_same_tick", "c10.two_suspensions", dict(ramA=I(1, 70), ramB=I(1, 70), dA=I(1, 2), dB=I(1, 2)), dict(cpuA=1, cpuB=2, K=8), "same_tick"))
     tsym = dict(ram=I(1, 45), s=I(0, 6), d0=I(1, 2), d1=I(1, 2))
     tfix = dict(n=2, s2=-1, dB=3, rB=7, K=K, d2=1)
     for w in ("accepted", "rejected", "ended", "resumed"):
